@@ -42,9 +42,17 @@ def to_smt2(pc, goal, light=False):
     return s.to_smt2()
 
 
+VARIANTS = {
+    1: ["smt.relevancy=0"],
+    2: ["smt.arith.solver=2"],
+    3: ["smt.random_seed=7", "sat.random_seed=7"],
+    4: ["smt.mbqi=false", "smt.random_seed=3"],
+}
+
+
 def _cmd(backend, path, timeout_s, seed=0):
     if backend == "z3":
-        extra = [f"smt.random_seed={seed}", f"sat.random_seed={seed}"] if seed else []
+        extra = VARIANTS.get(seed, [])
         return [Z3, f"-T:{int(timeout_s)}", "model_validate=false", *extra, path]
     return [CVC5, "--strings-exp", "--produce-models", f"--tlimit={int(timeout_s * 1000)}", path]
 
@@ -188,14 +196,15 @@ def _discharge_parts(todo, timeout_s, jobs, both):
         if not todo:
             return
     mode = "both" if both else "first"
+    first_budget = timeout_s if both else min(4, timeout_s)
     with ThreadPoolExecutor(max_workers=jobs) as ex:
-        res = list(ex.map(_solve_one, [(ob.smt2, timeout_s, mode) for ob in todo]))
+        res = list(ex.map(_solve_one, [(ob.smt2, first_budget, mode) for ob in todo]))
     # retry what is still unknown with a longer budget and a portfolio of random seeds, so that a verdict does not
     # depend on solver luck (an unknown is never reported before this second attempt)
     again = [i for i, rs in enumerate(res) if not any(r[0] in ("sat", "unsat") for r in rs.values())]
     if again:
-        with ThreadPoolExecutor(max_workers=max(2, jobs // 2)) as ex:
-            res2 = list(ex.map(_solve_one, [(todo[i].smt2, timeout_s * 3, "first", (1, 2, 3)) for i in again]))
+        with ThreadPoolExecutor(max_workers=max(2, jobs // 3)) as ex:
+            res2 = list(ex.map(_solve_one, [(todo[i].smt2, timeout_s * 2, "first", (1, 2, 3, 4)) for i in again]))
         for i, rs in zip(again, res2):
             res[i] = {k.split("#")[0] if r[0] in ("sat", "unsat") else k: r for k, r in rs.items()}
     for ob, rs in zip(todo, res):
